@@ -313,7 +313,40 @@ func doF12() {
 	piece("f12 "+variant, ans)
 }
 
+// doCGTopics: what consumerGroup.balance hands to the strategy: op `cgtopics <members> <topics>`
+func doCGTopics(ms, ts string) {
+	g := parseGroup(ms, ts)
+	op := fmt.Sprintf("cgtopics %s %s", ms, ts)
+	piece(op, run.Safe(op, func() string {
+		members, topics := g.saramaInput()
+		got, err := sarama.VerifGroupBalanceTopics(members, topics)
+		if err != nil {
+			return "err"
+		}
+		names := make([]string, 0, len(got))
+		for t := range got {
+			names = append(names, t)
+		}
+		sort.Strings(names)
+		out := make([]string, len(names))
+		for i, t := range names {
+			out[i] = t + ":" + i32sStr(got[t])
+			if PROP == "C08" && !g.hasSubscriber(t) {
+				run.IOFail("group-balance-passes-topic-without-subscriber", op, "topic "+t)
+			}
+		}
+		if len(out) == 0 {
+			return "-"
+		}
+		return strings.Join(out, ";")
+	}))
+}
+
 func genPieces(rnd *hlib.Rand, n int) {
+	for i := 0; i < n/10+5; i++ {
+		g, _ := randGroup(rnd, 6, 4, 5)
+		doCGTopics(g.membersStr(), g.topicsStr())
+	}
 	for i := 0; i < n; i++ {
 		cur, pot, all := randState(rnd)
 		curS, potS := asgShuffled(rnd, cur), asgShuffled(rnd, pot)
@@ -415,5 +448,7 @@ func replayPiece(t []string, l string) {
 		doMoves(t[1], t[2])
 	case "f12":
 		doF12()
+	case "cgtopics":
+		doCGTopics(t[1], t[2])
 	}
 }
